@@ -101,7 +101,51 @@ type Verdict struct {
 var kindOrder = map[jr.Kind]int{jr.Price: 0, jr.Open: 1, jr.Trx: 2, jr.Assert: 3, jr.Close: 4}
 
 // Lifecycle decides acceptance of a directive list (includes are ignored).
-func Lifecycle(ds []jr.Dir) Verdict {
+func Lifecycle(orig []jr.Dir) Verdict {
+	// accrual transactions are replaced by the transactions they expand to
+	var ds []jr.Dir
+	var origIdx []int
+	for i, d := range orig {
+		if d.Kind == jr.Trx && d.Accrue != nil {
+			l := NewLedger([]jr.Dir{d})
+			for t := range l.TrxDates {
+				nd := jr.Dir{Kind: jr.Trx, Date: ISO(l.TrxDates[t]), Desc: d.Desc}
+				for _, p := range l.Postings {
+					if p.Trx == t && p.Qty.Sign() >= 0 && (p.Qty.Sign() > 0 || p.Acc != d.Accrue.Acc) {
+						nd.Books = append(nd.Books, jr.Booking{Credit: p.Other, Debit: p.Acc, Qty: Str(p.Qty), Com: p.Com})
+						break
+					}
+				}
+				if len(nd.Books) == 0 {
+					for _, p := range l.Postings {
+						if p.Trx == t {
+							nd.Books = append(nd.Books, jr.Booking{Credit: p.Other, Debit: p.Acc, Qty: Str(p.Qty), Com: p.Com})
+							break
+						}
+					}
+				}
+				ds = append(ds, nd)
+				origIdx = append(origIdx, i)
+			}
+			continue
+		}
+		ds = append(ds, d)
+		origIdx = append(origIdx, i)
+	}
+	v := lifecycle(ds)
+	seen := map[int]bool{}
+	var cs []int
+	for _, c := range v.Candidates {
+		if !seen[origIdx[c]] {
+			seen[origIdx[c]] = true
+			cs = append(cs, origIdx[c])
+		}
+	}
+	v.Candidates = cs
+	return v
+}
+
+func lifecycle(ds []jr.Dir) Verdict {
 	type blockKey struct {
 		date string
 		kind int
